@@ -471,3 +471,38 @@ Print Assumptions C16_extract_after_compress_save_load.
 Print Assumptions C16_extract_blocks_after_compress_save_load.
 Print Assumptions C16_extract_after_compress_save_load_gallina.
 Print Assumptions C16_extract_same_after_compress_save_load.
+
+(* non-vacuity of (3''): a five-object document whose page content is Content::encode of text-showing operations (187
+   bytes); a compressor that answers that content with a genuine deflate stream (57 bytes, fixed Huffman codes, written by
+   zlib at level 9) and everything else with stored blocks, so [valid_zlib_output] holds for EVERY input and
+   Document::compress really rewrites the content stream (Filter FlateDecode, Length 57).  Both the document and the
+   compressed document meet C01's domain in both cross-reference formats, and the page view of the compressed document
+   -- lopdf's filter code on the Gallina inflate, then C14's Content::decode -- is the page of C16_extract_shown_text. *)
+From LV Require Gen.Filters Proofs.ComposeTextExample.
+Section DecodeAndCompressExample.
+  Import Model.Save Model.Xref Model.Loader Spec.SaveSpec Proofs.ComposeReload Proofs.ComposeText.
+  Import Spec.StreamCodecSpec Proofs.ObjectRtProofs Proofs.ComposeTextDecode Proofs.ComposeTextCompress Proofs.ComposeTextExample.
+
+  Theorem C16_example_after_compress_save_load :
+    (forall c, valid_zlib_output ex_deflate c) /\
+    compressible ex_deflate (d_objects ex_cdoc) /\
+    savable ex_cdoc /\ known_deep ex_cdoc = false /\ small_file XTable ex_cdoc /\ small_file XStream ex_cdoc /\
+    unreferenced XTable ex_cdoc /\ unreferenced XStream ex_cdoc /\
+    content_normal 200 (d_objects ex_cdoc) (3, 0) /\
+    page_written (stream_decomp gallina_inflate gallina_lzw) 200 (d_objects ex_cdoc) (3, 0) (bs "F1") ex_font ex_long_ops /\
+    length (content_encode ex_long_ops) = 187%nat /\
+    lookup (d_objects (compress_doc ex_deflate [] ex_cdoc)) (5, 0)
+      = Some (OStream [(K_Length, OInt 57); (K_Filter, OName Filters.COMPRESS_FILTER)] ex_long_z) /\
+    savable (compress_doc ex_deflate [] ex_cdoc) /\ known_deep (compress_doc ex_deflate [] ex_cdoc) = false /\
+    small_file XTable (compress_doc ex_deflate [] ex_cdoc) /\ small_file XStream (compress_doc ex_deflate [] ex_cdoc) /\
+    unreferenced XTable (compress_doc ex_deflate [] ex_cdoc) /\ unreferenced XStream (compress_doc ex_deflate [] ex_cdoc) /\
+    content_normal 200 (d_objects (compress_doc ex_deflate [] ex_cdoc)) (3, 0) /\
+    operand_dom (OInt 12) /\ Forall piece_i64 ex_long_pieces /\
+    get_font_encoding ex_font = Ok (EncOneByte ex_table) /\
+    Forall (piece_over (in_repertoire ex_table)) ex_long_pieces /\
+    doc_page (stream_decomp gallina_inflate gallina_lzw) content_decode 200 (d_objects (compress_doc ex_deflate [] ex_cdoc)) (3, 0)
+      = Some (page_showing (bs "F1") ex_font (OInt 12) ex_table ex_long_pieces).
+  Proof. exact ex_compress_after_save_load. Qed.
+End DecodeAndCompressExample.
+
+Print Assumptions C16_example_after_compress_save_load.
